@@ -15,7 +15,8 @@ TARGET = os.path.join(OUT, "target")
 PROF = os.path.join(OUT, "prof")
 os.makedirs(PROF, exist_ok=True)
 TOOLS = os.path.expanduser("~/.rustup/toolchains/nightly-x86_64-unknown-linux-gnu/lib/rustlib/x86_64-unknown-linux-gnu/bin")
-env = dict(os.environ, CARGO_NET_OFFLINE="true", CARGO_TARGET_DIR=TARGET, RUSTFLAGS="-C instrument-coverage")
+env = dict(os.environ, CARGO_NET_OFFLINE="true", CARGO_TARGET_DIR=TARGET, RUSTFLAGS="-C instrument-coverage",
+           LLVM_PROFILE_FILE=os.path.join(OUT, "build-%p.profraw"))  # build scripts are instrumented too: keep their output out of /repo
 subprocess.run(["cargo", "+nightly", "build", "--offline"], cwd=os.path.join(ROOT, "harness"), env=env, check=True)
 BIN = os.path.join(TARGET, "debug", "run_ops")
 
